@@ -268,6 +268,11 @@ def nodeStep (d : DState) (C : Crypto) (args : List String) : DState × String :
               s!"ok {toHex (encSummary s)} {h} " ++ String.intercalate "," (txs.map fun t => short (t.id C)))
           | .error e => (d, "err " ++ errKind e))
       | _, _ => (d, "bad-op"))
+  | ["refresh"] =>
+    -- another miner's request refreshes the watcher's shared chain state; the stored candidate stays as it was
+    (match d.cand with
+      | some (_, s, h, txs) => ({ d with cand := some (n.mgr.coinstate, s, h, txs) }, "ok")
+      | none => (d, "bad-op"))
   | ["found", sh, now] =>
     (match d.cand, now.toInt? with
       | some (cs, s, h, txs), some t =>
